@@ -25,6 +25,11 @@ API = D.API
 BIG = sys.maxsize * 4 + 7       # "N unknown": larger than any step number
 
 
+def _wellformed(a):
+    from .props_c18 import wellformed
+    return wellformed(a)
+
+
 def spec_objects(tier):
     """(Config-like spec) list.  For online classes N is irrelevant here."""
     out = []
@@ -113,6 +118,13 @@ class Replayed:
 
     def apply(self, ev):
         s = self.sched
+        if ev[0] == "iter":
+            try:
+                it = iter(s)
+                self.outcomes.append(("iter", it is s))
+            except Exception as e:  # noqa: BLE001
+                self.outcomes.append(("raise", type(e).__name__, str(e)))
+            return self.outcomes[-1]
         if ev[0] == "next":
             self.nexts += 1
             self.was_final.append(s.max_n is not None)
@@ -184,7 +196,7 @@ def explore(cfg, H, check_continuations=True):
     of findings: (props, code, msg, history)."""
     findings = []
     ks = k_alphabet(cfg)
-    events = [("next",)] + [("fin", k) for k in ks]
+    events = [("next",), ("iter",)] + [("fin", k) for k in ks]
     R0 = Replayed(cfg, [])
     seen = {canon(R0.sched): []}
     frontier = collections.deque([[]])
@@ -247,6 +259,28 @@ def explore(cfg, H, check_continuations=True):
             post_key = canon(R.sched)
             outcomes_seen[(ev[0], out[0])] += 1
             changed = post_key != pre_key
+            if ev[0] == "iter":
+                # obtaining an iterator requests no action: flags, counters
+                # and the subsequent stream are as before
+                if out[0] != "iter":
+                    finding(["C09", "C15"], "iter_raises",
+                            f"iter(schedule) -> {out}", hist + [ev])
+                    continue
+                s2 = R.sched
+                try:
+                    if bool(s2.is_running) != (R.nexts >= 1):
+                        finding(["C09"], "is_running_after_iter",
+                                f"is_running={s2.is_running} after iter() with "
+                                f"{R.nexts} action(s) requested", hist + [ev])
+                except Exception:  # noqa: BLE001
+                    pass
+                n_cont += 1
+                if continuation(cfg, hist + [ev], L=6) != \
+                        continuation(cfg, hist, L=6):
+                    finding(["C15", "C09"], "iter_changes_stream",
+                            "iter(schedule) changed the subsequent stream",
+                            hist + [ev])
+                continue
             if ev[0] == "fin":
                 k = ev[1]
                 # ---------------- the protocol model (C10)
@@ -326,6 +360,10 @@ def explore(cfg, H, check_continuations=True):
                     n_states += 1
                     frontier.append(hist + [ev])
                 continue
+            wf = _wellformed(R.actions[-1])
+            if wf:
+                finding(["C18"], "illformed_action",
+                        f"{out[1]}: [{wf[0][0]}] {wf[0][1]}", hist + [ev])
             if M.phase == DONE:
                 finding(["C02", "C09"], "action_after_conclusion",
                         f"next() returned {out[1]} after the final action",
